@@ -158,6 +158,7 @@ def expr(cx, n, env):
         return binop(cx, n, env)
     if isinstance(n, ast.UnaryOp) and isinstance(n.op, ast.USub):
         v = expr(cx, n.operand, env)
+        if v.ty == "negcot": return V(v.lean, "cs")       # -tan(theta + pi/2) = cot(theta): same (cross^2, dot) pair
         if v.ty == "rat": return V(f"(-{v.lean})", "rat", v.norm)
         if v.ty == "vec": return V(f"(smul (-1) {v.lean})", "vec", v.norm)
         cx.err("unsupported negation", n)
@@ -254,6 +255,8 @@ def subscript(cx, n, env):
         k = _num(n.slice)
         if k not in (0, 1): cx.err("edge index is not 0 or 1", n)
         return V(f"{v.lean}.{k + 1}", "nat")
+    if v.ty == "attr:ref":
+        return V(nat_expr(cx, n.slice, env), "ref")
     if v.ty == "mode" and cx.cfg.get("mode_dict"):
         return V(f"({cx.cfg['mode_dict']} {nat_expr(cx, n.slice, env)})", "rat")
     if v.ty.startswith("attr:"):
@@ -427,6 +430,19 @@ def call(cx, n, env):
         if s.ty != "root" or s.rad is None: cx.err("atan2 whose first argument is not a single norm", n)
         if tuple(s.norm) != tuple(c.norm): cx.err("atan2 whose arguments carry different rescalings", n)
         return V(f"({s.rad}, {as_ty(cx, c, 'rat', n).lean})", "cs")
+    if f.endswith(".get_attribute") and len(n.args) == 1 and isinstance(n.args[0], ast.Constant):
+        key = "get:" + f.split(".")[1] + ":" + str(n.args[0].value)
+        if key not in env: cx.err("read of a cached attribute that this function is not expected to read", n)
+        return env[key]
+    if f in ("np.tan", "math.tan") and len(n.args) == 1:
+        # tan(theta + pi/2) = -cot(theta): only as `-np.tan(<angle> + np.pi/2)` (handled by the caller through USub)
+        a = n.args[0]
+        if isinstance(a, ast.BinOp) and isinstance(a.op, ast.Add):
+            l, r = a.left, a.right
+            if ast.unparse(r).replace(" ", "") in ("np.pi/2", "math.pi/2", "pi/2"):
+                v = expr(cx, l, env)
+                if v.ty == "cs": return V(v.lean, "negcot")
+        cx.err("tan of something that is not <angle> + pi/2", n)
     if f == "abs" and len(n.args) == 1:
         v = expr(cx, n.args[0], env)
         if v.ty != "rat": cx.err("abs of a non-scalar", n)
@@ -712,7 +728,7 @@ def cached_source(cx, st):
     key = st.test.args[0].value
     cont = ast.unparse(st.test.func).split(".")[1]
     a, b = strip(st.body), strip(st.orelse)
-    if len(a) != 1 or len(b) != 1 or not isinstance(a[0], ast.Assign) or not isinstance(b[0], ast.Assign): cx.err("cached-attribute test with unexpected branches", st)
+    if len(a) != 1 or len(b) != 1 or not isinstance(a[0], ast.Assign) or not isinstance(b[0], ast.Assign): return None      # a general if/else on the cached attribute
     want = f"mesh.{cont}.get_attribute('{key}')"
     if ast.unparse(a[0].value) != want: cx.err(f"the cached branch does not read {want}", st)
     if a[0].targets[0].id != b[0].targets[0].id: cx.err("the two branches bind different names", st)
@@ -1033,6 +1049,7 @@ def attr_function(fn, sigs, cfg):
     conf = [(py, ln, lty, vty) for py, ln, lty, vty in cfg["params"] if py]
     if len(actual) != len(conf): cx.err(f"parameters {actual} where {[c[0] for c in conf]} are expected")
     for a_, (py, ln, lty, vty) in zip(actual, conf): env[a_] = V(ln, vty)
+    for k_, (ln_, ty_) in cfg.get("keys", {}).items(): env[k_] = V(ln_, ty_)
     body = body_of(fn)
     lets = []
     ret = None
@@ -1205,6 +1222,16 @@ ATTRS += [
          sources=_SRC),
     dict(file=IF, name="average_corners_to_faces", params=[P_F, P_ANG, ("cattr", "cattr", "Attr Rat", "attr:rat"), ("fattr", "fattr", "Attr Rat", "attr:rat"), P_W],
          sources=_SRC),
+]
+ATTRS += [
+    dict(file=AF + "attr_corners.py", name="cotangent", elem="cs",
+         params=[P_VS, P_F, (None, "has_angles", "Bool", "x"), (None, "angles", "Attr (Rat × Rat)", "x")],
+         keys={"has:face_corners:angles": ("has_angles", "bool"), "get:face_corners:angles": ("angles", "attr:cs")}),
+]
+ATTRS += [
+    dict(file=AF + "attr_vertices.py", name="angle_defects", elem="defect",
+         params=[P_VS, P_F, ("zero_border", "zero_border", "Bool", "bool")],
+         sources={"angles": ("face_corners", "angles", "corner_angles", "ang", "attr:ref")}),
 ]
 MODELLED_PRIMS = {"circumcenter": ("circumcenter", ["vec"] * 3, "vec")}
 
